@@ -219,6 +219,18 @@ def r1(k: Kit) -> None:
                 okeof = False
     stl = [1 for n_, v in k.stores_to(cl_, 'self._connection_lost')
            if isinstance(v, ast.Constant) and v.value is True]
+    # ... and the drain-waiter loop is reached on every normal path
+    heads = [n_.id for n_ in gg.nodes if n_.kind == 'loop' and
+             isinstance(n_.ast, ast.For) and any(n_.ast is d for d in dr)]
+    drain_all = bool(heads) and gg.must_pass(heads, follow_exc=False) is None
+    rep.check(drain_all, 'C09.R1', key(cl_, 'drainers woken on every path'),
+              'the drain-waiter release loop runs on every path through '
+              'connection_lost',
+              'connection_lost releases drain() waiters only on some paths '
+              '(e.g. not when the peer had already sent EOF): a task blocked '
+              'in drain() is never woken', cl_.loc(cl_.node),
+              gg.describe_path(gg.must_pass(heads, follow_exc=False))
+              if heads and not drain_all else None)
     rep.check(len(dr) == 1 and okeof and bool(stl), 'C09.R1',
               key(cl_, 'readers and drainers woken'),
               'connection_lost wakes every reader (via EOF) and drainer',
